@@ -19,6 +19,7 @@ use std::sync::Arc;
 fn harness(name: &str, p: &Value) -> (Arc<util::Mk>, Box<dyn FnMut(&ds::RunResult) -> Option<(String, String)>>) {
     match name {
         "c01_race" => (c01::mk_race(p), Box::new(c01::judge_race)),
+        "c05_sched" => (c05::mk_sched(p), Box::new(c05::judge_sched)),
         "c07_window" => (c07::mk_window(p), Box::new(c07::judge_window)),
         "c08_callers" => (c08::mk_callers(p), Box::new(c08::judge_callers)),
         "c15_lifecycle" => (c15::mk_lifecycle(p), Box::new(c15::judge_lifecycle)),
@@ -90,6 +91,7 @@ fn main() {
     let res = match args.subcheck.as_str() {
         "c01_race" => c01::run(&args),
         "c07_window" => c07::run(&args),
+        "c05_sched" => c05::run_sched(&args),
         "c05_conv" | "c06_precise" => c05::run(&args, &args.subcheck.clone()),
         "c08_callers" => c08::callers(&args),
         "c08_shapes" => c08::shapes(&args),
